@@ -45,13 +45,15 @@ func (p *packageParse) clear() {
 // parse 返回一个或者多个完成的包
 func (p *packageParse) parse(data []byte) ([]*Message, error) {
 	msgs, err := p.unpack(data)
+	if len(p.timeoutRecord) > 0 {
+		p.deleteTimeoutPackage() // 先删除超时的分包记录 避免超时后补到的分包还能合并完成
+	}
 	for _, msg := range msgs {
 		if completeMsg, ok := p.completePack(msg); ok {
 			msgs = append(msgs, completeMsg)
 		}
 	}
 	if len(p.timeoutRecord) > 0 {
-		p.deleteTimeoutPackage()
 		if v, ok := p.supplementarySubPackage(); ok {
 			msgs = append(msgs, v...)
 		}
